@@ -88,18 +88,6 @@ func (server *Server) registerSugarExecutors() {
 	})
 
 	server.RegisterExexutor("GETRANGE", func(conn *Conn, cmd string, args Arguments) (*Message, error) {
-		rageValidiator := func(val int, max int) int {
-			if val < 0 {
-				val = max + val
-				if val < 0 {
-					return 0
-				}
-			}
-			if max < val {
-				val = max - 1
-			}
-			return val
-		}
 		key, err := nextKeyArgument(cmd, args)
 		if err != nil {
 			return nil, err
@@ -114,15 +102,38 @@ func (server *Server) registerSugarExecutors() {
 		}
 		getRet, err := server.userCommandHandler.Get(conn, key)
 		if err != nil {
-			return NewNilMessage(), nil
+			return nil, err
 		}
-		getVal, err := getRet.String()
-		if err != nil {
-			return NewNilMessage(), nil
+		getVal := ""
+		if !getRet.IsNil() {
+			getVal, err = getRet.String()
+			if err != nil {
+				return nil, err
+			}
 		}
-		start = rageValidiator(start, len(getVal))
-		end = rageValidiator(end, len(getVal))
-		return NewBulkMessage(getVal[start:(end + 1)]), nil
+		strlen := len(getVal)
+		if start < 0 && end < 0 && start > end {
+			return NewBulkMessage(""), nil
+		}
+		if start < 0 {
+			start = strlen + start
+		}
+		if end < 0 {
+			end = strlen + end
+		}
+		if start < 0 {
+			start = 0
+		}
+		if end < 0 {
+			end = 0
+		}
+		if end >= strlen {
+			end = strlen - 1
+		}
+		if strlen == 0 || start > end {
+			return NewBulkMessage(""), nil
+		}
+		return NewBulkMessage(getVal[start : end+1]), nil
 	})
 
 	server.RegisterExexutor("INCR", func(conn *Conn, cmd string, args Arguments) (*Message, error) {
